@@ -73,12 +73,17 @@ def gen_sequence(ctx, d, depth):
             ops.append(('frame', p['name'], a, fi, frames[fi], fr))
         elif r < 0.8:
             ops.append(('garbage', gen_inputs.garbage(rng, 20), rng.choice([0, 38000])))
-        elif r < 0.9:
+        elif r < 0.88:
             ops.append(('release',))
-        else:
+        elif r < 0.94:
             if keys:
                 nm = rng.choice(keys)[0]['name']
                 ops.append(('toggle', nm))
+        else:
+            if keys:
+                # the per-protocol carrier tolerance, including 0 = the exact carrier is required
+                nm = rng.choice(keys)[0]['name']
+                ops.append(('ftol', nm, rng.choice([0, 0, 1, 5, 10])))
     return ops
 
 
@@ -92,6 +97,8 @@ def run_sequence(d, ops):
         elif op[0] == 'toggle':
             dec = d.decs[d.pid[op[1]]]
             dec._enabled = not dec._enabled
+        elif op[0] == 'ftol':
+            d.decs[d.pid[op[1]]]._frequency_tolerance = op[2]
         elif op[0] == 'release':
             d.release()
         elif op[0] == 'frame':
